@@ -15,6 +15,9 @@ type Behaviour struct {
 	Actions []Action `json:"actions"`
 }
 
+// MeterAll turns on allocation metering in every executor (single-world processes only).
+var MeterAll bool
+
 // RunBehaviours executes behaviours in parallel and writes all events (grouped per run, each run
 // preceded by a reset event carrying its configuration) as NDJSON.
 func RunBehaviours(bs []Behaviour, out string, workers int) error {
@@ -38,6 +41,7 @@ func RunBehaviours(bs []Behaviour, out string, workers int) error {
 					results[i] = res{idx: i, err: err}
 					continue
 				}
+				e.Meter = MeterAll
 				for _, a := range b.Actions {
 					e.Do(a)
 				}
